@@ -31,10 +31,12 @@ Qed.
 Print Assumptions C02_kind_ident.
 
 Theorem C02_kind_expr : forall t, kind_ok KExpr t = true ->
-  implements (dyn_type t) T_ast_Expr = true /\ dyn_type t <> T_P_ast_KeyValueExpr /\ dyn_type t <> T_P_ast_Ellipsis.
+  implements (dyn_type t) T_ast_Expr = true /\ dyn_type t <> T_P_ast_KeyValueExpr /\ dyn_type t <> T_P_ast_Ellipsis /\
+  nil_pointer t = false.
 Proof.
-  intros t H. cbn [kind_ok] in H. apply andb_true_iff in H as [H E2]. apply andb_true_iff in H as [H E1].
-  split; [exact H|]. split; [apply N.eqb_neq, negb_true_iff; exact E1|apply N.eqb_neq, negb_true_iff; exact E2].
+  intros t H. cbn [kind_ok] in H. apply andb_true_iff in H as [H E3]. apply andb_true_iff in H as [H E2]. apply andb_true_iff in H as [H E1].
+  split; [exact H|]. split; [apply N.eqb_neq, negb_true_iff; exact E1|].
+  split; [apply N.eqb_neq, negb_true_iff; exact E2|apply negb_true_iff; exact E3].
 Qed.
 Print Assumptions C02_kind_expr.
 
